@@ -19,7 +19,7 @@ from ..lib.leangen import llist
 LEVEL = "proof"
 CLAIM = dict(
     category="proof",
-    text="Theorems in DarsiaProps.C07 for the model on every shape (any number of axes, any extents); the code builds grids only for shapes "
+    text="Theorems in DarsiaProps.C07 for the MODEL on every shape list (model values outside the guard, e.g. an extent 0, describe nothing the code computes: numpy raises there); the code builds grids only for shapes "
     "passing gridGuard (dims 1-3, extents >= 1, len(voxel_size) = dim; error classes tied by a correspondence): Fortran numbering is a "
     "bijection (encF/decF), faces <-> [0,num_faces) bijection, face-count formula, connectivity = (cell idx, cell idx+e_a) with first<second "
     "differing only along the normal axis, reverse connectivity is the exact inverse and -1 iff the cell is on the outer boundary in that "
@@ -278,11 +278,13 @@ def run(ctx):
         g = make_grid(d, (2,) * dim)
         impl.append(repr(g) if isinstance(g, Raised) else sep([ints(r) for r in np.asarray(g.cell_corners)]))
     # which constructor calls are accepted at all (error class as data): dims 0 / 4, extents 0, voxel-size lists of wrong length
-    for shape, nh in [((), 0), ((2, 2, 2, 2), 4), ((0,), 1), ((0, 3), 2), ((3, 0), 2), ((2, 0, 2), 3), ((3, 4), 3), ((3, 4), 1), ((3,), 0), ((3,), 2),
-                      ((2, 2, 2), 2), ((1,), 1), ((1, 1), 2), ((1, 1, 1), 3), ((5, 2), 2)]:
-        lines.append(f"guard {len(shape)} " + " ".join(map(str, shape)) + f" {nh} " + " ".join(["1"] * nh))
-        g = call(d.Grid, tuple(shape), [1.0] * nh)
-        impl.append(repr(g) if isinstance(g, Raised) else "ok")
+    # systematically: every shape with 0..4 axes and extents in {0, 1, 2} x voxel-size lists of length dim-1, dim, dim+1
+    guard_shapes = [s for dimg in range(0, 5) for s in itertools.product((0, 1, 2), repeat=dimg)]
+    for shape in guard_shapes:
+        for nh in sorted({max(len(shape) - 1, 0), len(shape), len(shape) + 1}):
+            lines.append(f"guard {len(shape)} " + " ".join(map(str, shape)) + f" {nh} " + " ".join(["1"] * nh))
+            g = call(d.Grid, tuple(shape), [1.0] * nh)
+            impl.append(repr(g) if isinstance(g, Raised) else "ok")
     ctx.correspond("grid-tables", lines, impl)
     ctx.cov["exhaustive"] = True
     ctx.cov["shapes_exhaustive"] = len(shapes)
